@@ -83,6 +83,26 @@ def gen(rng, n):
             d["MAX_TIME"] = 15_000_000
             d.pop("RETRY", None)
         if rng.chance(1, 10) and not d.get("ZERO_RTT") and "FORGET_AT" not in d:
+            # CID rotation, close, and then the connection's OLD datagrams are replayed: the peer endpoint
+            # answers with stateless resets for retired CIDs, which must not route to the drained
+            # connection's (possibly reused) handle any more
+            d["NCONNS"] = 1
+            d["CID_LIFETIME_MS"] = rng.choice([50, 100, 200])
+            d["DELAY_MIN"] = d["DELAY_MAX"] = rng.choice([5000, 10000])
+            d["STREAM_BYTES"] = rng.choice([100000, 300000])
+            d["WRITE_CHUNK"] = 100000
+            d["READ_MAX"] = 100000
+            d["NBIDI"] = 1
+            d["ECHO_BYTES"] = 100000
+            d["CLOSER"] = rng.choice([0, 1])
+            d["CLOSE_AT"] = rng.choice([400000, 700000])
+            d["REPLAY"] = rng.choice([300, 600])
+            d["IDLE_MS"] = 3000
+            d["MAX_TIME"] = 8_000_000
+            d.pop("RETRY", None)
+            if d.get("CID_LEN") == 0:
+                d["CID_LEN"] = 8
+        elif rng.chance(1, 10) and not d.get("ZERO_RTT") and "FORGET_AT" not in d:
             # every identifier of a drained connection stops routing - also the one issued with the
             # server's preferred address: the client switches to it (address change), the connection
             # closes, and its old datagrams are replayed afterwards
@@ -103,7 +123,7 @@ def gen(rng, n):
             d.pop("RETRY", None)
             if d.get("CID_LEN") == 0:
                 d["CID_LEN"] = 8
-        if rng.chance(1, 8) and not d.get("ZERO_RTT") and "FORGET_AT" not in d and "PREFERRED_ADDR" not in d:
+        if rng.chance(1, 8) and not d.get("ZERO_RTT") and "FORGET_AT" not in d and "PREFERRED_ADDR" not in d and "CID_LIFETIME_MS" not in d:
             # adversarial scheduling: the application closes in the very driver iteration in which a
             # given timer of its connection expired (after handle_timeout, before the endpoint's answers)
             d["CLOSE_ON_TIMER"] = rng.choice([1, 6, 8, 8, 9])
